@@ -25,7 +25,7 @@ except Exception as e: print('-')
   git -C /repo checkout -- .
   if echo "$OUT" | grep -q "^VIOLATION"; then R="CAUGHT by $P ($KIND)"; cp /verif/out/replay/$P.quick.json $D/replay.$P.json 2>/dev/null; else R="missed by $P"; fi
   echo "$ID: $R" | cut -c1-400
-  echo "rerun against the final machinery (quick tier, seed 1): $R" > $D/rerun.txt
+  echo "rerun on $(date -u +%Y-%m-%dT%H:%MZ) against /verif $(git -C /verif rev-parse --short HEAD), /repo $(git -C /repo rev-parse --short HEAD) (quick tier, seed 1): $R" > $D/rerun.txt
 done
 cp -a $EVBAK/. /verif/evidence/; rm -rf $EVBAK
 git -C /repo status --short | head -3
